@@ -939,7 +939,8 @@ fn cmd_check(id: &str, tier: &str, cases_override: Option<u32>, workers: usize, 
             "interleavings are explored at the granularity of Mutex/Condvar/park/unpark/spawn/join/mpsc operations; atomics inside the futures crate execute atomically; no weak-memory effects",
             "generated-input search never establishes absence: bounds are <=4 objects, <=4 callers, pool 0..3, <=~30 operations, <=300 explicit schedule choices followed by a deterministic tail",
             "the vsched primitives implement a subset of the behaviours std documents (no fairness, lost notifications, optional spurious wake-ups), so every explored execution is one real threads can produce",
-            "executions cut off by the step bound count as inconclusive, never as violations"
+            "executions cut off by the step bound count as inconclusive, never as violations",
+            "simulated threads are coroutines on one OS thread per worker: per-thread state inside the tested code (the unmodified library has none) is only handled by the OS-thread stage, which runs when an in-run violation does not reproduce in isolation (coverage.os_thread_stage_cases; 0 = it did not have to run)"
         ],
         "wall_s": wall,
         "violations": violations
